@@ -758,6 +758,7 @@ func (t *Transition) emitEvents() Result {
 			m.setActiveStates(called, t.TargetStates(), t.IsAuto())
 			// gather new clock values, overwrite fake TimeAfter
 			m.activeStatesMx.Unlock()
+			verifPoint("emit.afterSet", m)
 
 			// cache for subscriptions, mind partially accepted auto states
 			if t.IsAuto() {
